@@ -49,6 +49,7 @@ func checkC16(c *Ctx) {
 	c.ruleAttrPair("X3.pair")
 	c.ruleAttrLossless("A.lossless")
 	c.ruleParamsCompare("X1.params-compare")
+	c.ruleOptionalAbsent("X1.absent")
 	c.ruleUnsignedTail("X5.unsigned-tail")
 	c.ruleContentValue("A.content-value")
 	// one closure per attribute kept for later must not share the loop variable
@@ -546,7 +547,7 @@ func (c *Ctx) ruleAttrPair(rule string) {
 	}
 	// field level: parsed fields are read by the encoder's cone
 	readByEnc := map[string]bool{}
-	encCone, _ := c.valueCone(enc)
+	encCone, encOpaque := c.valueCone(enc)
 	for _, g := range encCone {
 		for _, f := range []*ssa.Function{g} {
 			instrsOf(f, func(i ssa.Instruction) {
@@ -579,6 +580,10 @@ func (c *Ctx) ruleAttrPair(rule string) {
 		ss := byField[f]
 		at := ss[0]
 		construct := "field:" + f
+		if !readByEnc[f] && encOpaque {
+			c.R.Infof(rule, name(at.fn), construct, c.IPos(at.at), "not decided for this shape: the attribute encoder calls through values the call graph does not resolve; whether it reads "+f+" is not known")
+			continue
+		}
 		if !readByEnc[f] {
 			c.R.Violf(rule, name(at.fn), construct, c.IPos(at.at), what,
 				"the parser fills "+f+" but nothing the attribute encoder reaches reads it: what was parsed into it is missing from the bytes the signature is checked over")
@@ -725,6 +730,19 @@ func (c *Ctx) ruleUnknownAttrs(rule string) {
 				keeps = append(keeps, s.at)
 			}
 		}
+		// an entry put into a map held by the parsed attributes keeps the attribute too
+		// (whether an earlier one of the same type is overwritten is A.keyed-once's question)
+		instrsOf(fn, func(i ssa.Instruction) {
+			mu, ok := i.(*ssa.MapUpdate)
+			if !ok {
+				return
+			}
+			if ld, isLd := mu.Map.(*ssa.UnOp); isLd && ld.Op == token.MUL && attrField(ld.X) != "" {
+				if pos, _ := oidGuards(fn, i.Block()); len(pos) == 0 {
+					keeps = append(keeps, i)
+				}
+			}
+		})
 		// also an append / call that hands the attribute on (helper keeps it)
 		keepBlocks := map[int]bool{}
 		for _, k := range keeps {
@@ -1040,6 +1058,105 @@ func (c *Ctx) ruleAttrLossless(rule string) {
 			order = append(order, fn)
 		}
 	}
+	// which string parameters of the helpers receive a string of the signed region: found by
+	// following the region from the root functions through the call sites (fix-point)
+	regionParam := map[*ssa.Function]map[int]bool{}
+	regionOf := func(fn *ssa.Function) []ssa.Value {
+		var region []ssa.Value
+		in := func(a ssa.Value) bool {
+			for _, r := range region {
+				if sameCell(r, a) {
+					return true
+				}
+			}
+			return false
+		}
+		var reads []*cbRead
+		instrsOf(fn, func(i ssa.Instruction) { reads = append(reads, c.readsOf(i)...) })
+		if isRoot[fn] {
+			for _, r := range reads {
+				if r.hasTag && r.tag == 0xa0 {
+					for _, o := range r.outs {
+						if ir.NamedTypeID(deref(o.Type())) == cbPkg+".String" && !in(o) {
+							region = append(region, o)
+						}
+					}
+				}
+			}
+		}
+		for k, p := range fn.Params {
+			if regionParam[fn][k] {
+				region = append(region, p)
+			}
+		}
+		instrsOf(fn, func(i ssa.Instruction) {
+			if st, ok := i.(*ssa.Store); ok {
+				if p, isP := st.Val.(*ssa.Parameter); isP {
+					for k, q := range fn.Params {
+						if q == p && regionParam[fn][k] {
+							region = append(region, st.Addr)
+						}
+					}
+				}
+			}
+		})
+		for changed := true; changed; {
+			changed = false
+			for _, r := range reads {
+				if !in(r.recv) {
+					continue
+				}
+				for _, o := range r.outs {
+					if ir.NamedTypeID(deref(o.Type())) == cbPkg+".String" && !in(o) {
+						region = append(region, o)
+						changed = true
+					}
+				}
+			}
+		}
+		return region
+	}
+	for round := 0; round < 6; round++ {
+		grew := false
+		for _, fn := range order {
+			region := regionOf(fn)
+			in := func(a ssa.Value) bool {
+				if ld, ok := a.(*ssa.UnOp); ok && ld.Op == token.MUL {
+					a = ld.X
+				}
+				for _, r := range region {
+					if sameCell(r, a) {
+						return true
+					}
+				}
+				return false
+			}
+			instrsOf(fn, func(i ssa.Instruction) {
+				call, ok := i.(ssa.CallInstruction)
+				if !ok {
+					return
+				}
+				g := ir.Callee(call)
+				if g == nil || !regionFn[g] {
+					return
+				}
+				for k, a := range call.Common().Args {
+					if k < len(g.Params) && in(a) {
+						if regionParam[g] == nil {
+							regionParam[g] = map[int]bool{}
+						}
+						if !regionParam[g][k] {
+							regionParam[g][k] = true
+							grew = true
+						}
+					}
+				}
+			})
+		}
+		if !grew {
+			break
+		}
+	}
 	for _, fn := range order {
 		// the signed region: the string filled by the [0] read, and every string cut out of a string of the region
 		region := []ssa.Value{}
@@ -1068,7 +1185,10 @@ func (c *Ctx) ruleAttrLossless(rule string) {
 		if !isRoot[fn] {
 			// a helper that receives a string of the region: its string parameters (a string
 			// received by address stays with the caller, who has to account for its rest)
-			for _, p := range fn.Params {
+			for k, p := range fn.Params {
+				if !regionParam[fn][k] {
+					continue
+				}
 				if ir.NamedTypeID(deref(p.Type())) == cbPkg+".String" {
 					region = append(region, p)
 					if _, isPtr := p.Type().Underlying().(*types.Pointer); isPtr {
@@ -1829,9 +1949,21 @@ func (c *Ctx) valueCone(fn *ssa.Function) ([]*ssa.Function, bool) {
 				if call, ok := i.(ssa.CallInstruction); ok {
 					if callee := ir.Callee(call); callee != nil {
 						walk(callee, d+1)
-					} else if !call.Common().IsInvoke() {
-						if _, isB := call.Common().Value.(*ssa.Builtin); !isB {
-							opaque = true
+					} else {
+						// dynamic call: the targets the call graph resolves (interface dispatch, function values)
+						resolved := false
+						if node := c.P.CallGraph().Nodes[g]; node != nil {
+							for _, e := range node.Out {
+								if e.Site == call && e.Callee != nil && e.Callee.Func != nil {
+									resolved = true
+									walk(e.Callee.Func, d+1)
+								}
+							}
+						}
+						if !resolved {
+							if _, isB := call.Common().Value.(*ssa.Builtin); !isB {
+								opaque = true
+							}
 						}
 					}
 				}
@@ -2020,6 +2152,184 @@ func (c *Ctx) ruleUnsignedTail(rule string) {
 	if n == 0 {
 		if root := c.FnOpt("pkcs7.ParsePKCS7"); root != nil {
 			c.R.Infof(rule, name(root), "after-encrypted-digest", c.Pos(root.Pos()), "not decided for this shape: the read of the signer entry's encrypted digest is not identified")
+		}
+	}
+}
+
+// ---- X1.absent: with an OPTIONAL element absent the parser still succeeds
+
+// ruleOptionalAbsent evaluates, for every optional read (ReadOptionalASN1*) of the
+// parser, the function's conditions under "the element is absent": the string
+// the read fills is empty, its presence flag is false, library calls that map an
+// empty input to an empty result do (x509.ParseCertificates: no certificates, no
+// error). Conditions decided by that (len(x) == 0, x.Empty(), the flag, the nil
+// test of such a call's error) lose the edge that cannot be taken; some successful
+// return must stay reachable. Conditions that emptiness does not decide keep both
+// edges, so this can only report a function that refuses every blob without the
+// element ("certificate inclusion on/off", detached content, no signed attributes).
+func (c *Ctx) ruleOptionalAbsent(rule string) {
+	fns := c.pkcs7ParserFuncs(rule)
+	if fns == nil {
+		return
+	}
+	what := "a blob without an OPTIONAL element ([0] content, [0] certificates, [0] signed attributes) still parses: with the element absent some path of the function succeeds"
+	counts := map[string]int{}
+	for _, fn := range fns {
+		for _, b := range fn.Blocks {
+			for _, i := range b.Instrs {
+				r := c.readOf(i)
+				if r == nil || !strings.HasPrefix(r.method, "ReadOptionalASN1") {
+					continue
+				}
+				key := ordinalKey(counts, name(fn)+":absent")
+				construct := strings.TrimPrefix(key, name(fn)+":")
+				empty := map[ssa.Value]bool{}   // values that are empty byte strings / lists
+				isFalse := map[ssa.Value]bool{} // booleans that are false
+				nilErr := map[ssa.Value]bool{}  // errors that are nil
+				var cells []ssa.Value
+				for _, o := range r.outs {
+					t := deref(o.Type())
+					if bt, ok := t.Underlying().(*types.Basic); ok && bt.Kind() == types.Bool {
+						instrsOf(fn, func(j ssa.Instruction) {
+							if ld, ok := j.(*ssa.UnOp); ok && ld.Op == token.MUL && sameCell(ld.X, o) {
+								isFalse[ld] = true
+							}
+						})
+						continue
+					}
+					cells = append(cells, o)
+				}
+				// the filled cell must not be written by anything else
+				clean := true
+				for _, o := range cells {
+					instrsOf(fn, func(j ssa.Instruction) {
+						if st, ok := j.(*ssa.Store); ok && sameCell(st.Addr, o) {
+							if !ir.IsNilConst(st.Val) {
+								clean = false
+							}
+						}
+						if r2 := c.readOf(j); r2 != nil && r2.call != r.call {
+							for _, o2 := range r2.outs {
+								if sameCell(o2, o) {
+									clean = false
+								}
+							}
+						}
+					})
+				}
+				if !clean || len(cells) == 0 {
+					c.R.Infof(rule, name(fn), construct, c.IPos(i), "not decided for this shape: the variable the optional read fills is also written elsewhere")
+					continue
+				}
+				for changed := true; changed; {
+					changed = false
+					mark := func(m map[ssa.Value]bool, v ssa.Value) {
+						if !m[v] {
+							m[v] = true
+							changed = true
+						}
+					}
+					instrsOf(fn, func(j ssa.Instruction) {
+						switch x := j.(type) {
+						case *ssa.UnOp:
+							if x.Op == token.MUL {
+								for _, o := range cells {
+									if sameCell(x.X, o) {
+										mark(empty, x)
+									}
+								}
+							}
+						case *ssa.ChangeType:
+							if empty[x.X] {
+								mark(empty, x)
+							}
+						case *ssa.Convert:
+							if empty[x.X] {
+								mark(empty, x)
+							}
+						case *ssa.Slice:
+							if empty[x.X] {
+								mark(empty, x)
+							}
+						case *ssa.Extract:
+							if call, ok := x.Tuple.(*ssa.Call); ok && ir.CallID(call) == "crypto/x509.ParseCertificates" && len(call.Call.Args) == 1 && empty[call.Call.Args[0]] {
+								if x.Index == 0 {
+									mark(empty, x)
+								} else {
+									mark(nilErr, x)
+								}
+							}
+						}
+					})
+				}
+				cut := map[ir.Edge]bool{}
+				for _, ce := range ir.CondEdges(fn) {
+					decided, val := false, false
+					switch x := ce.Cond.(type) {
+					case *ssa.UnOp:
+						if isFalse[x] {
+							decided, val = true, false
+						}
+					case *ssa.Call:
+						if ir.CallID(x) == cbPkg+".String.Empty" {
+							if a := ir.CallArgs(x); len(a) > 0 && empty[a[0]] {
+								decided, val = true, true
+							}
+						}
+					case *ssa.BinOp:
+						if e, nilWhenTrue, ok := ir.NilCheck(x); ok && nilErr[e] {
+							decided, val = true, nilWhenTrue
+							break
+						}
+						// len(empty) against 0
+						lenOf := func(v ssa.Value) bool {
+							call, ok := v.(*ssa.Call)
+							if !ok {
+								return false
+							}
+							bi, isB := call.Call.Value.(*ssa.Builtin)
+							return isB && bi.Name() == "len" && len(call.Call.Args) == 1 && empty[call.Call.Args[0]]
+						}
+						if k, isK := ir.ConstInt(x.Y); isK && lenOf(x.X) {
+							decided = true
+							switch x.Op {
+							case token.EQL:
+								val = k == 0
+							case token.NEQ:
+								val = k != 0
+							case token.GTR:
+								val = 0 > k
+							case token.GEQ:
+								val = 0 >= k
+							case token.LSS:
+								val = 0 < k
+							case token.LEQ:
+								val = 0 <= k
+							default:
+								decided = false
+							}
+						}
+					}
+					if decided && ce.Truth != val {
+						cut[ce.Edge] = true
+					}
+				}
+				// the read itself succeeds when the element is absent
+				for _, ce := range ir.CondEdges(fn) {
+					if ce.Cond == ssa.Value(r.call) && !ce.Truth {
+						cut[ce.Edge] = true
+					}
+				}
+				seen, _ := ir.Reach(fn, fn.Blocks[0], cut)
+				ok := false
+				for _, ret := range acceptingReturnsMode(fn, true) {
+					if seen[ret.Block().Index] {
+						ok = true
+					}
+				}
+				c.R.Check(ok, rule, name(fn), construct, c.IPos(i), what,
+					"with the optional element absent (the string it fills empty, its presence flag false, nothing parsed out of it) no successful return of "+name(fn)+" is reachable: every blob without the element is refused")
+			}
 		}
 	}
 }
